@@ -142,8 +142,10 @@ class C04(core.Check):
                         first.append(['removeChild', t, c])
                     for s in dc.TEXTS:
                         first += [['removeText', t, s], ['removeTextAll', t, s], ['appendText', t, s]]
+                    strad = [['removeText', t, s] for s in dc.straddling(w.objs[t])] + [['removeTextAll', t, s] for s in dc.straddling(w.objs[t])]
+                    first += strad
                     first.append(['remove', t])
-                    sample = first if self.tier == 'thorough' else rng.sample(first, min(len(first), 14))
+                    sample = first if self.tier == 'thorough' else rng.sample(first, min(len(first), 14)) + strad[:2]
                     for op in sample:
                         cases.append(dict(base, ops=[op]))
                         fam += 1
